@@ -297,6 +297,7 @@ func (tx *FnTx) checkCallAsserts(desc string, when string, st, pre *State, res [
 			lim = tx.curIdx + 1
 		}
 		env.resolve = tx.resolverUpTo(tx.curBlock, nil, true, lim)
+		env.preferLocals = true
 		for i, r := range res {
 			env.vars[fmt.Sprintf("callresult%d", i)] = r
 		}
@@ -305,10 +306,16 @@ func (tx *FnTx) checkCallAsserts(desc string, when string, st, pre *State, res [
 		}
 		s, err := env.TrBool(ca.Clause.E)
 		if err != nil {
+			if strings.Contains(err.Error(), "unknown identifier") {
+				// the clause mentions variables that are not in scope at this call site: it does not apply here
+				continue
+			}
 			panic(specErr{fmt.Sprintf("at call %s: %v", ca.Pattern, err)})
 		}
 		k := tx.callOrdinal("assert:" + ca.Clause.Label)
 		tx.oblige("assert", fmt.Sprintf("%s@%d", ca.Clause.Label, k), s, tx.curReach, when+" call "+desc+": "+ca.Clause.Src)
+		// assert-then-assume: once proved (as its own obligation) the fact may be used by everything after it
+		tx.assumeReach(s)
 	}
 }
 
@@ -434,6 +441,14 @@ func (tx *FnTx) callCommon(cc *ssa.CallCommon, v ssa.Value, st *State) *State {
 	return tx.afterCall(desc, post, st, res)
 }
 
+func (tx *FnTx) callbackFrame(name string) ([]ModItem, bool) {
+	if tx.c == nil || tx.c.Callbacks == nil {
+		return nil, false
+	}
+	items, ok := tx.c.Callbacks[name]
+	return items, ok
+}
+
 // fnValName gives the source-level name of a called function value.
 func fnValName(v ssa.Value) string {
 	switch x := v.(type) {
@@ -470,7 +485,26 @@ func (tx *FnTx) callDynamic(cc *ssa.CallCommon, v ssa.Value, args []Term, st *St
 	tx.curCallArgs = args
 	tx.checkCallAsserts(desc, "before", st, st, nil)
 	tx.safety("nilfunc", "(not (= "+fv.S+" 0))", "call of non-nil function value "+name)
-	post := tx.h.havocAll(st)
+	var post *State
+	if items, ok := tx.callbackFrame(name); ok {
+		env := tx.baseEnv(st, tx.entry)
+		env.resolve = tx.resolverUpTo(tx.curBlock, nil, true, tx.curIdx)
+		env.preferLocals = true
+		for i, a := range args {
+			env.vars[fmt.Sprintf("callarg%d", i)] = a
+		}
+		regs, err := tx.resolveMods(items, env, false)
+		if err != nil {
+			panic(specErr{fmt.Sprintf("callback %s modifies: %v", name, err)})
+		}
+		post = tx.havocRegions(st, regs)
+		na := tx.d.fresh("alloc_cb", "Int")
+		tx.assume("(>= " + na + " " + st.alloc + ")")
+		post.alloc = na
+		tx.note("call of function value " + name + " in " + tx.key + ": assumed to write only its declared callback frame (trusted)")
+	} else {
+		post = tx.h.havocAll(st)
+	}
 	res := tx.freshResults("dyn_"+sanitize(name), sig, post)
 	// ghost trace
 	calls := tx.h.ghostTerm(st, "calls!"+name, "Int")
